@@ -88,12 +88,13 @@ a bare document whose root satisfies `bl2`, i.e. is built from
   double-quoted (both escape policies), `null` in all five spellings including the empty one, booleans in
   six spellings, integers in all five spellings (decimal, `+`, `0x`, `0o`, zero-padded);
 * flow collections (of such scalars, any depth) as leaves,
-* and (layer 3, literal style) literal block scalars `|` as values of block mapping entries and
+* and (layer 3) literal `|` and folded `>` block scalars as values of block mapping entries and
   sequence items at any depth: every chomping indicator, every content indentation 1–9 with or
   without the explicit indentation indicator, any admissible text (`strOk`: printable lines, no
-  line of spaces only, leading-space first line only with the indicator).
-Not in this layer: folded block scalars and block scalars at the document root (3), comment / blank
-lines and trailing comments (4), anchors and aliases (6), `---` / `...` and several documents (7). -/
+  line of spaces only, leading-space first line only with the indicator; folded: no line starting
+  with a space, no leading line feed, folds at any set of single spaces between two words).
+Not in this layer: block scalars at the document root (3), comment / blank lines and trailing
+comments (4), anchors and aliases (6), `---` / `...` and several documents (7). -/
 theorem render_load_block (x : PNode) (g : Nat) (h : x.bl2 .root = true) :
     loadRef (render (bareStream x g)) = .ok [x.tree] := by
   rw [render_load_bytes]; exact loadChars_block2 x g h
@@ -115,25 +116,28 @@ def exL2 : PNode :=
 example : exL2.bl2 .root = true := by decide +kernel
 example : admissible (bareStream exL2 0) = true := by decide +kernel
 
-/-- Non-vacuity for the literal block scalars of layer 3: keep / strip / clip, explicit indicator,
-deeper-indented and blank lines, a scalar followed by a sibling entry and one ending the document. -/
+/-- Non-vacuity for the block scalars of layer 3: keep / strip / clip, explicit indicator,
+deeper-indented and blank lines, a scalar followed by a sibling entry and one ending the document;
+folded scalars with folds, line feeds inside and at the end. -/
 def exL3 : PNode :=
   .map false 0 false (.cons {} "a".toList .plain (.str "x\n  y\n\nz\n".toList (.literal .clip 2 false))
     (.cons {} "b".toList .plain (.seq false 2 false
         (.cons {} (.str " lead\nk: v # no comment".toList (.literal .strip 3 true))
         (.cons {} (.map false 0 true (.cons {} "c".toList .plain (.str "t\n\n\n".toList (.literal .keep 1 false)) .nil)) .nil)))
-    (.cons {} "d".toList .plain (.str "".toList (.literal .strip 1 true)) .nil)))
+    (.cons {} "d".toList .plain (.str "".toList (.literal .strip 1 true))
+    (.cons {} "e".toList .plain (.str "one two three\nfour\n\nfive six\n\n".toList (.folded .keep 2 false [3, 24]))
+    (.cons {} "f".toList .plain (.seq false 0 false (.cons {} (.str "k: v # x".toList (.folded .strip 4 true [])) (.cons {} (.int 1 0) .nil))) .nil)))))
 
 example : exL3.bl2 .root = true := by decide +kernel
 example : admissible (bareStream exL3 0) = true := by decide +kernel
 example : (bareStream exL3 0).chars =
-    "a: |\n  x\n    y\n\n  z\nb:\n  - |3-\n      lead\n     k: v # no comment\n  - c: |+\n     t\n\n\nd: |1-\n\n".toList := by
+    "a: |\n  x\n    y\n\n  z\nb:\n  - |3-\n      lead\n     k: v # no comment\n  - c: |+\n     t\n\n\nd: |1-\n\ne: >+\n  one\n  two three\n\n  four\n\n\n  five\n  six\n\nf:\n- >4-\n    k: v # x\n- 1\n".toList := by
   decide +kernel
 
-/-- Layer 3 (literal and folded block scalars, chomping, indentation indicator) — finite family only
-(the literal style is proved for all presentations by `render_load_block`; folded style and block
-scalars at the document root are covered by this family only). -/
-theorem render_load_partial_block_scalars : familyBlockScalar.all loadsBack = true := by decide +kernel
+/-- Layer 3, the remaining part: a block scalar as the root node of a document — finite family only
+(block scalars below the root are proved for all presentations by `render_load_block`; the family
+also contains such). -/
+theorem render_load_partial_root_block_scalars : familyBlockScalar.all loadsBack = true := by decide +kernel
 
 /-- Layer 4 (comments and blank lines) — finite family only. -/
 theorem render_load_partial_comments : familyComments.all loadsBack = true := by decide +kernel
